@@ -221,10 +221,10 @@ nd::harnesses! {
     #[kani::unwind(7)] fn c14_clone_3() { cstring_clone::<3>(2) }
     #[kani::unwind(6)] fn c14_clone_from_2() { cstring_clone_from::<2>() }
     #[kani::unwind(7)] fn c14_clone_from_3() { cstring_clone_from::<3>() }
-    #[kani::unwind(6)] fn c14_eq_hash_str_2() { cstring_eq_hash::<2>(0, 0) }
-    #[kani::unwind(6)] fn c14_eq_hash_mixed_2() { cstring_eq_hash::<2>(0, 2) }
-    #[kani::unwind(7)] fn c14_eq_hash_str_3() { cstring_eq_hash::<3>(0, 0) }
-    #[kani::unwind(7)] fn c14_eq_hash_mixed_3() { cstring_eq_hash::<3>(2, 0) }
+    #[kani::unwind(10)] fn c14_eq_hash_str_2() { cstring_eq_hash::<2>(0, 0) }
+    #[kani::unwind(10)] fn c14_eq_hash_mixed_2() { cstring_eq_hash::<2>(0, 2) }
+    #[kani::unwind(10)] fn c14_eq_hash_str_3() { cstring_eq_hash::<3>(0, 0) }
+    #[kani::unwind(10)] fn c14_eq_hash_mixed_3() { cstring_eq_hash::<3>(2, 0) }
     #[kani::unwind(7)] fn c14_cstr_borrowed_4() { cstr_borrowed::<4>() }
     #[kani::unwind(8)] fn c14_cstr_borrowed_5() { cstr_borrowed::<5>() }
 
